@@ -19,9 +19,14 @@
 package jwx
 
 import (
+	"crypto/ecdsa"
+	"crypto/ed25519"
+	"crypto/rsa"
 	"errors"
+	"fmt"
 
 	"github.com/lestrrat-go/jwx/v2/jwa"
+	"github.com/lestrrat-go/jwx/v2/jwk"
 )
 
 // ErrUnsupportedSigningKey is returned when an unsupported private key is used to sign. Currently only ecdsa and rsa keys are supported
@@ -54,4 +59,57 @@ func SupportedAlgorithmsAsStrings() []string {
 		result = append(result, string(alg))
 	}
 	return result
+}
+
+// ValidateAlgorithmForKey checks that the signature algorithm is defined for the given verification key (RFC 7518):
+// ES256, ES384 and ES512 require a key on P-256, P-384 and P-521 respectively, PS*/RS* require an RSA key and EdDSA an Ed25519 key.
+// The JWX library only checks the key family, so a P-256 key would otherwise verify e.g. an ES512 (SHA-512) signature.
+// The key may be a (pointer to a) public or private key from the standard library, or a jwk.Key.
+func ValidateAlgorithmForKey(alg jwa.SignatureAlgorithm, key interface{}) error {
+	if asJWK, ok := key.(jwk.Key); ok {
+		var raw interface{}
+		if err := asJWK.Raw(&raw); err != nil {
+			return err
+		}
+		key = raw
+	}
+	var expected []jwa.SignatureAlgorithm
+	switch k := key.(type) {
+	case *ecdsa.PublicKey:
+		expected = ecAlgorithms(k)
+	case ecdsa.PublicKey:
+		expected = ecAlgorithms(&k)
+	case *ecdsa.PrivateKey:
+		expected = ecAlgorithms(&k.PublicKey)
+	case *rsa.PublicKey, rsa.PublicKey, *rsa.PrivateKey:
+		expected = []jwa.SignatureAlgorithm{jwa.PS256, jwa.PS384, jwa.PS512, jwa.RS256, jwa.RS384, jwa.RS512}
+	case ed25519.PublicKey, ed25519.PrivateKey:
+		expected = []jwa.SignatureAlgorithm{jwa.EdDSA}
+	default:
+		// unknown key type: nothing to compare with, verification of the signature will fail if the key can't be used
+		return nil
+	}
+	for _, curr := range expected {
+		if curr == alg {
+			return nil
+		}
+	}
+	return fmt.Errorf("signing algorithm %s does not match key type (%T)", alg, key)
+}
+
+func ecAlgorithms(key *ecdsa.PublicKey) []jwa.SignatureAlgorithm {
+	if key == nil || key.Curve == nil {
+		return nil
+	}
+	switch key.Curve.Params().Name {
+	case "P-256":
+		return []jwa.SignatureAlgorithm{jwa.ES256}
+	case "P-384":
+		return []jwa.SignatureAlgorithm{jwa.ES384}
+	case "P-521":
+		return []jwa.SignatureAlgorithm{jwa.ES512}
+	case "secp256k1":
+		return []jwa.SignatureAlgorithm{jwa.ES256K}
+	}
+	return nil
 }
